@@ -162,14 +162,14 @@ def fold_fn(ctx, cr, key, layer, **kw):
         ok, why = judge(layer, v, mon, kw.get("init", 0))
         n += 1
         if not ok:
-            bad.setdefault(why, S.trace_str(tr, 8))
+            bad.setdefault(slug(why), (why, S.trace_str(tr, 8)))
     # one obligation per distinct reason so that a known finding does not mask a new one
     f = cr.fns[key]
     if not bad:
         ctx.ob(rule, "%s:%s" % (rule, key), n >= kw.get("min_paths", 1), "%d returns examined" % n, fn=f,
                sample={"fn": key, "layer": layer, "returns": n})
-    for why, tr in sorted(bad.items()):
-        ctx.ob(rule, "%s:%s:%s" % (rule, key, slug(why)), False, "%s [%s]" % (why, tr), fn=f)
+    for sl, (why, tr) in sorted(bad.items()):
+        ctx.ob(rule, "%s:%s:%s" % (rule, key, sl), False, "%s [%s]" % (why, tr), fn=f)
 
 
 def slug(s):
